@@ -91,6 +91,27 @@ def check(facts, rep, tier, cfg):
                 else:
                     rep.bad("C02.R2", "start_send/%s" % b.path, where, "a message reaches the WebSocket sink without going through the single ordered outbound queue (frames of one stream can be reordered / interleaved)")
     rep.floor("C02.R2", "start_send sites", n, 2)
+    # a message taken off the outbound queue is always handed to the sink before the poll function returns
+    kq = 0
+    for b in crate.bodies:
+        recvs = [bi for bi, t in b.calls() if callee(t) and callee(t)["name"] == "poll_recv" and "UnboundedReceiver::<ws::Message>" in callee(t)["path"]
+                 and not b.blocks[bi]["cleanup"]]
+        if not recvs:
+            continue
+        tr = Tracer(facts, b)
+        sends = set(bi for bi, t in b.calls() if callee(t) and callee(t)["name"] == "start_send_unpin")
+        for r in recvs:
+            kq += 1
+            rep.analysed(b)
+            where = "%s (%s)" % (loc_str(b.term(r)["loc"]), b.path)
+            leak = credit_leak_after_take(facts, b, tr, r, sends)
+            if leak is None:
+                rep.ok("C02.R2", "dequeued-message-always-sent/%s" % b.path, where, "every path from Ready(Some(msg)) reaches start_send before returning")
+            else:
+                rep.bad("C02.R2", "dequeued-message-always-sent/%s" % b.path, where,
+                        "after a message has been taken off the outbound queue the function can return (%s) without handing it to the sink: "
+                        "under sink back-pressure the frame is dropped and the byte stream has a hole although the write succeeded" % loc_str(b.term(leak)["loc"]))
+    rep.floor("C02.R2", "outbound queue poll_recv sites", kq, 1)
     qs = list(queue_sends(facts, crate))
     rep.floor("C02.R2", "queue-send sites", len(qs), 14 + 2 * ("std" in crate.features) + ("tokio-time" in crate.features))
     # the receiver half is created once
